@@ -876,6 +876,18 @@ def _fault_exec(plan, fault, res, ref_ops, ref_fp):
         if tracker.child_exception:
             raise K.HarnessError("child exception under fault: %s" % tracker.child_exception)
         check_finals("end")
+        # the channel properties file is published under a final name as well
+        pf = os.path.join(chdir, "drf_properties.h5")
+        if os.path.exists(pf):
+            try:
+                import h5py
+
+                with h5py.File(pf, "r") as f_:
+                    if "sample_rate_numerator" not in f_.attrs:
+                        out.append(("bad_final_file", "end: drf_properties.h5 published without its attributes"))
+            except Exception as e:  # noqa
+                out.append(("bad_final_file", "end: drf_properties.h5 published but unreadable: %s: %s" % (
+                    type(e).__name__, str(e)[:120])))
         # ---- API-level clauses
         calls = tracker.calls
         accepted = tracker.model
